@@ -25,13 +25,16 @@ def run(ctx):
     quick = ctx.tier == "quick"
     binp = cc.build(ctx)
     verdict = core.Verdict(ctx)
-    cov = {"configs": [], "conformance_drift": [], "conformance_drift_count": 0}
+    cov = {"configs": [], "conformance_drift": [], "conformance_drift_count": 0, "other_property_failures": []}
     totals = {"states": 0, "transitions": 0, "runs": 0, "events": 0, "distinct": set(), "samples": []}
 
     def account(v, rows, label):
         for x in v["viol"]:
             sig = {"inv": x["inv"], "class": x["class"]}
-            verdict.add(sig, {"failing_step": x["row"], "prefix": x["prefix"], "config": label})
+            if x["inv"] in cc.C01_INVS:
+                verdict.add(sig, {"failing_step": x["row"], "prefix": x["prefix"], "config": label})
+            else:   # clauses of C02/C03 and node panics are judged by their own checks; listed here for the reader
+                cov["other_property_failures"].append(dict(sig, config=label))
         cov["conformance_drift"] += [{"what": d["what"], "fields": d.get("fields"), "config": label,
                                       "step": {k: d["row"].get(k) for k in ("ev", "n", "m", "k")}} for d in v["drift"][:3]]
         cov["conformance_drift_count"] += len(v["drift"])
